@@ -2,8 +2,8 @@
 # seed_matrix.sh [seed ...]: run every seeded change (default: all) against the check of its own
 # property in a scratch worktree of /repo (VERIF_REPO) with a scratch copy of the verifier state
 # (VERIF_DIR), so /repo and /verif/evidence are left alone. Results: /verif/seeded/<id>/result.txt.
-export GOFLAGS=-mod=mod GOPROXY=off GOSUMDB=off GOTOOLCHAIN=local GOMAXPROCS=8
-SR=/tmp/seedrepo; SV=/tmp/seedverif
+export GOFLAGS=-mod=mod GOPROXY=off GOSUMDB=off GOTOOLCHAIN=local GOMAXPROCS=${GOMAXPROCS:-8}
+SR=/tmp/seedrepo${MATRIX_ID:-}; SV=/tmp/seedverif${MATRIX_ID:-}   # MATRIX_ID lets several matrices run side by side
 rm -rf $SV; git -C /repo worktree remove --force $SR 2>/dev/null; rm -rf $SR
 git -C /repo worktree add --detach $SR HEAD >/dev/null 2>&1 || exit 2
 mkdir -p $SV; cp -r /verif/baseline /verif/stubs /verif/known_findings.jsonl /verif/replays $SV/
@@ -22,4 +22,4 @@ for S in $SEEDS; do
     echo "$OUT" | grep -E "^(VIOLATION|UNBOUND|KNOWN|ERROR|UNDECIDED)" | cut -c1-300 | head -5 | tee -a /verif/seeded/$S/result.txt
   done
 done
-git -C /repo worktree remove --force $SR; rm -rf $SV
+git -C /repo worktree remove --force $SR; rm -rf $SV $SR
